@@ -60,7 +60,7 @@ func (bvpw builtVector1PropertyWriter) Write(out io.Writer, i int) (err error) {
 
 	switch bvpw.format {
 	case UChar:
-		bvpw.buf[0] = byte(math.Round(bvpw.arr.At(i) * 255))
+		bvpw.buf[0] = byte(math.Round(math.Max(0, math.Min(1, v)) * 255))
 
 	case Int:
 		bvpw.endian.PutUint32(bvpw.buf, uint32(v))
@@ -90,7 +90,7 @@ func (av4pw *asciiVector1PropertyWriter) Write(out io.Writer, i int) (err error)
 
 	switch av4pw.format {
 	case UChar:
-		av4pw.buf = strconv.AppendInt(av4pw.buf, int64(math.Round(v*255)), 10)
+		av4pw.buf = strconv.AppendInt(av4pw.buf, int64(math.Round(math.Max(0, math.Min(1, v))*255)), 10)
 
 	case Int, UInt, Short, UShort:
 		av4pw.buf = strconv.AppendInt(av4pw.buf, int64(v), 10)
